@@ -30,7 +30,7 @@ ops:
 
 from __future__ import annotations
 
-from typing import Dict, Iterable, Optional, Tuple
+from typing import Dict, Iterable, List, Optional, Tuple
 
 _INTERN: Dict[tuple, "T"] = {}
 
@@ -253,6 +253,36 @@ def affine(t) -> Affine:
   if t.op == "call" and t.args[0] in ("int", "wp.int32", "wp.int64") and len(t.args) == 2:
     return affine(t.args[1])
   return Affine({t: 1}, 0)
+
+
+def affine_alternatives(t, bound: int = 16) -> List[Affine]:
+  """Affine normal forms of every phi-alternative of an integer term: phi nodes reachable through +, -, unary minus,
+  constant scaling and int() casts are distributed (bounded); phis inside other operators stay inside the atom."""
+  if isinstance(t, T):
+    if t.op == "phi":
+      out = []
+      for a in t.args:
+        for x in affine_alternatives(a, bound):
+          if all(x.key() != y.key() for y in out):
+            out.append(x)
+      return out[:bound]
+    if t.op == "bin" and t.args[0] in ("+", "-"):
+      op, a, b = t.args
+      xs, ys = affine_alternatives(a, bound), affine_alternatives(b, bound)
+      if len(xs) * len(ys) > 1:
+        return [(x + y) if op == "+" else (x - y) for x in xs for y in ys][:bound]
+    if t.op == "bin" and t.args[0] == "*":
+      _, a, b = t.args
+      fa, fb = affine(a), affine(b)
+      if fa.is_const():
+        return [y.scale(fa.const) for y in affine_alternatives(b, bound)]
+      if fb.is_const():
+        return [x.scale(fb.const) for x in affine_alternatives(a, bound)]
+    if t.op == "un" and t.args[0] == "-":
+      return [x.scale(-1) for x in affine_alternatives(t.args[1], bound)]
+    if t.op == "call" and t.args[0] in ("int", "wp.int32", "wp.int64") and len(t.args) == 2:
+      return affine_alternatives(t.args[1], bound)
+  return [affine(t)]
 
 
 def same_affine(a, b) -> bool:
